@@ -843,7 +843,7 @@ pub fn run_regs(out: &mut Out, seed: u64, _n: u64) {
         out.emit(Ev::new("seg_base_msr").words("r", &[a, b]).words("want", &[v, v + 0x1000]).raw("instrs", &cpu::instrs_json(&ins)));
     }
 
-    run_ctx(out, r);
+    run_ctx(out, r, "regs");
     // RFLAGS and MXCSR run natively
     for _ in 0..20 {
         out.emit(Ev::new("rflags_rt").str("kind", "raw").words("r", &rflags_id_roundtrip()).w("mask", RFlags::all().bits()));
@@ -982,6 +982,89 @@ ctx_probe!(ctx_xcr0, |c, d, e, f| {
     std::hint::black_box((x, c, d, e, f));
 });
 
+ctx_probe!(ctx_tlb, |c, d, e, f| {
+    use x86_64::instructions::tlb;
+    tlb::flush(VirtAddr::new_truncate(c));
+    tlb::flush(VirtAddr::new_truncate(d));
+    tlb::flush_all();
+    tlb::flush(VirtAddr::new_truncate(e));
+    tlb::flush(VirtAddr::new_truncate(e));
+    std::hint::black_box(f);
+});
+ctx_probe!(ctx_invpcid, |c, d, e, f| {
+    use x86_64::instructions::tlb::{self, InvPcidCommand};
+    tlb::flush_pcid(InvPcidCommand::Address(VirtAddr::new_truncate(c), Pcid::new((d & 0xfff) as u16).unwrap()));
+    tlb::flush_pcid(InvPcidCommand::Single(Pcid::new((e & 0xfff) as u16).unwrap()));
+    tlb::flush_pcid(InvPcidCommand::All);
+    tlb::flush_pcid(InvPcidCommand::AllExceptGlobal);
+    tlb::flush_pcid(InvPcidCommand::Single(Pcid::new((f & 0xfff) as u16).unwrap()));
+});
+ctx_probe!(ctx_tables, |c, d, e, f| {
+    use x86_64::instructions::tables::{lgdt, lidt, sgdt, sidt};
+    use x86_64::structures::DescriptorTablePointer;
+    let g0 = sgdt();
+    let p1 = DescriptorTablePointer { limit: c as u16, base: VirtAddr::new_truncate(d) };
+    lgdt(&p1);
+    let p2 = DescriptorTablePointer { limit: e as u16, base: VirtAddr::new_truncate(f) };
+    lidt(&p2);
+    let i0 = sidt();
+    load_tss(SegmentSelector(c as u16));
+    let (g1, i1) = (sgdt(), sidt());
+    assert!({ g0.limit } == { g1.limit } && { g0.base } == { g1.base } && { i0.limit } == { i1.limit } && { i0.base } == { i1.base });
+    // the same pointer loaded twice is loaded twice
+    lgdt(&p2);
+    lgdt(&p2);
+});
+ctx_probe!(ctx_segs, |c, d, e, f| {
+    DS::set_reg(SegmentSelector(c as u16));
+    ES::set_reg(SegmentSelector(d as u16));
+    FS::set_reg(SegmentSelector(e as u16));
+    GS::set_reg(SegmentSelector(f as u16));
+    SS::set_reg(SegmentSelector(d as u16));
+    let before = (DS::get_reg(), ES::get_reg(), SS::get_reg(), CS::get_reg());
+    let after = (DS::get_reg(), ES::get_reg(), SS::get_reg(), CS::get_reg());
+    assert!(before == after);
+});
+ctx_probe!(ctx_gsbase, |c, d, e, f| {
+    let old = GS::read_base();
+    GS::write_base(VirtAddr::new_truncate(c));
+    let g1 = GS::read_base();
+    GS::write_base(VirtAddr::new_truncate(d));
+    let g2 = GS::read_base();
+    GS::write_base(old);
+    let g3 = GS::read_base();
+    assert!(g1 == VirtAddr::new_truncate(c) && g2 == VirtAddr::new_truncate(d) && g3 == old);
+    std::hint::black_box((e, f));
+});
+ctx_probe!(ctx_mxcsr, |c, d, e, f| {
+    use x86_64::registers::mxcsr::{self, MxCsr};
+    let masks = MxCsr::INVALID_OPERATION_MASK | MxCsr::DENORMAL_MASK | MxCsr::DIVIDE_BY_ZERO_MASK
+        | MxCsr::OVERFLOW_MASK | MxCsr::UNDERFLOW_MASK | MxCsr::PRECISION_MASK;
+    let saved = mxcsr::read();
+    let v1 = MxCsr::from_bits_truncate(c as u32) | masks;
+    let v2 = MxCsr::from_bits_truncate(d as u32) | masks;
+    mxcsr::write(v1);
+    let r1 = mxcsr::read();
+    mxcsr::write(v2);
+    let r2 = mxcsr::read();
+    mxcsr::write(saved);
+    let r3 = mxcsr::read();
+    assert!(r1 == v1 && r2 == v2 && r3 == saved);
+    std::hint::black_box((e, f));
+});
+ctx_probe!(ctx_rflags, |c, d, e, f| {
+    // the ID flag is harmless in ring 3; arithmetic flags may differ between two reads
+    const ARITH: u64 = 0x8d5;
+    let id = RFlags::ID.bits();
+    let f0 = rflags::read_raw();
+    rflags::write_raw(f0 ^ id);
+    let f1 = rflags::read_raw();
+    rflags::write(RFlags::from_bits_truncate(f1) ^ RFlags::ID);
+    let f2 = rflags::read();
+    assert!((f0 ^ f1) & !ARITH == id && (f2.bits() ^ f0) & !ARITH & RFlags::all().bits() == 0);
+    std::hint::black_box((c, d, e, f));
+});
+
 /// lean shapes (no other live state): a carry across a typed CR4 write; a closure's carry
 #[inline(never)]
 pub extern "C" fn lean_cr4_carry(base: u64, offset: u64, cr4: u64) {
@@ -1014,16 +1097,31 @@ pub extern "C" fn lean_port_w32(_x: u64, _y: u64, value: u32, port: u16) {
     unsafe { x86_64::instructions::port::Port::<u32>::new(port).write(value) };
 }
 
-pub fn run_ctx(out: &mut Out, r: &mut Rng) {
+pub fn run_ctx(out: &mut Out, r: &mut Rng, only: &str) {
+    let sel = |name: &str| -> bool {
+        match only {
+            "" => true,
+            "tlb" => matches!(name, "tlb" | "invpcid"),
+            "tables" => matches!(name, "tables"),
+            "regs" => !name.starts_with("port") && !name.starts_with("wi") && !matches!(name, "tlb" | "invpcid"),
+            "intr" => name.starts_with("wi") || name == "rflags",
+            "ports" => name.starts_with("port"),
+            _ => true,
+        }
+    };
     for k in 0..8u64 {
+        let (l_regs, l_intr, l_ports) = (matches!(only, "" | "regs"), matches!(only, "" | "intr"), matches!(only, "" | "ports"));
         let base = if k % 2 == 0 { u64::MAX - r.below(100) } else { r.below(1 << 50) };
         let off = 1 + r.below(1000);
         let cr4 = r.next();
         set(Reg::Cr(4), 0);
         cpu::drain();
-        let ok = catch(|| lean_cr4_carry(base, off, cr4)).is_some();
+        let ok = !l_regs || catch(|| lean_cr4_carry(base, off, cr4)).is_some();
         let ins = cpu::drain();
+        if l_regs {
         out.emit(Ev::new("lean").str("name", "cr4_carry").words("args", &[base, off, cr4]).str("k", if ok { "ok" } else { "panic" }).words("got", &[0, 0]).raw("instrs", &cpu::instrs_json(&ins)));
+        }
+        if l_intr {
         let (mut counter, mut wraps) = (base, 5u32);
         cpu::IF.store(1, std::sync::atomic::Ordering::SeqCst);
         x86_64::registers::rflags::VERIF_IF_OVERLAY.store(2, std::sync::atomic::Ordering::SeqCst);
@@ -1037,6 +1135,10 @@ pub fn run_ctx(out: &mut Out, r: &mut Rng) {
         x86_64::registers::rflags::VERIF_IF_OVERLAY.store(0, std::sync::atomic::Ordering::SeqCst);
         cpu::drain();
         out.emit(Ev::new("lean").str("name", "wi_carry").words("args", &[base, off, 1]).str("k", if ok { "ok" } else { "panic" }).words("got", &[counter, wraps as u64]).raw("instrs", "[]"));
+        }
+        if !l_ports {
+            continue;
+        }
         let (v, p) = (r.next() as u32, (0x4000 + r.below(0x1000)) as u16);
         cpu::drain();
         let ok = catch(|| lean_port_w32(base, off, v, p)).is_some();
@@ -1044,7 +1146,14 @@ pub fn run_ctx(out: &mut Out, r: &mut Rng) {
         out.emit(Ev::new("lean").str("name", "port_w32").words("args", &[v as u64, p as u64, 0]).str("k", if ok { "ok" } else { "panic" }).words("got", &[0, 0]).raw("instrs", &cpu::instrs_json(&ins)));
     }
     type P = fn(u64, u64, u64, u64, u64, u64) -> [u64; 4];
-    let probes: [(&str, P); 12] = [
+    let probes: [(&str, P); 19] = [
+        ("tlb", ctx_tlb),
+        ("invpcid", ctx_invpcid),
+        ("tables", ctx_tables),
+        ("segs", ctx_segs),
+        ("gsbase", ctx_gsbase),
+        ("mxcsr", ctx_mxcsr),
+        ("rflags", ctx_rflags),
         ("cr4_carry", ctx_cr4_carry),
         ("wi_carry", ctx_wi_carry),
         ("port_w32", ctx_port_w32),
@@ -1059,6 +1168,9 @@ pub fn run_ctx(out: &mut Out, r: &mut Rng) {
         ("xcr0", ctx_xcr0),
     ];
     for (name, p) in probes.iter() {
+        if !sel(name) {
+            continue;
+        }
         for k in 0..6u64 {
             // carry set / clear, operands with all halves populated
             let a = if k % 2 == 0 { u64::MAX - r.below(1000) } else { r.below(1 << 40) };
@@ -1071,11 +1183,16 @@ pub fn run_ctx(out: &mut Out, r: &mut Rng) {
                     let d = if carry_cd { (1u64 << 63) + r.below(1 << 40) } else { r.below(1 << 40) & !(1 << 63) & (!c) };
                     (c, d, r.next(), r.next())
                 }
+                "segs" | "tables" => {
+                    let sl = |r: &mut Rng| ((20 + r.below(4000)) << 3) & 0xffff;
+                    if *name == "segs" { (sl(r), sl(r), sl(r), sl(r)) } else { (sl(r), r.next(), r.next(), r.next()) }
+                }
                 "cs_twice" => (((20 + r.below(4000)) << 3) & 0xffff, ((20 + r.below(4000)) << 3) & 0xffff, r.next(), r.next()),
                 _ => (r.next(), r.next(), r.next(), r.next()),
             };
             set(Reg::Cr(4), 0);
             set(Reg::Cr(0), 0);
+            set(Reg::Cr(3), 0x1234_5005);
             set(Reg::Msr(EFER), 0);
             cpu::IF.store(1, std::sync::atomic::Ordering::SeqCst);
             x86_64::registers::rflags::VERIF_IF_OVERLAY.store(2, std::sync::atomic::Ordering::SeqCst);
